@@ -1,6 +1,6 @@
 import json, os, sys
 sys.path.insert(0, os.path.join(os.path.dirname(__file__), ".."))
-from harness.registry import ALL, CLAIMED, NOT_YET
+from harness.registry import ALL, CLAIMED, NOT_YET, entry
 
 fixes = ["0d37815", "028deee", "bf02e2f", "1d5dfa7", "0d9f6b4"]
 m = {
@@ -26,7 +26,7 @@ m = {
 }
 for pid in ALL:
     if pid in CLAIMED:
-        c = CLAIMED[pid]
+        c = entry(pid)
         m["checks"].append({
             "property_id": pid,
             "quick_cmd": "./check %s quick" % pid,
